@@ -30,6 +30,11 @@ CHECKS = {
     note=BASE + "the Lean compiler/runtime is trusted for executing the proven checker; retrograde_exact (the generator algorithm itself) is not proved — exactness rests on checking the generator's output; BitBoard::extractSquare order assumed.",
     technique="Lean 4 proof (fixed point of the Bellman conditions = exact DTM) + proven certificate checker run over every index of every generated table (both storage back ends) + index-level and probe differentials + abort injection histories",
     design="notes/C12.md"),
+ "C13": dict(
+    text="Lean theorems (Props/C13.lean + Bridge/TB): the 50-move margin (regenerated from tbprobe.cpp by the translator) is non-negative exactly when the mate is on the board by half-move clock 100; the on-demand probe is exact iff the position is drawn or within that margin, otherwise bound 0 in the right direction with the frustration distance; what a root with exact value v may announce (expectedMate) = exact probe through the UCI mate conversion; swindle scores (regenerated swindleScore) are never mate scores; the certified table gives the score of the true distance to mate (C12). Partial: that the search propagates the probe result to the root, and the effect of clock-resetting captures inside a 4-man line, are tied only by the audit of the real engine's final score and best move against the exact distance to mate.",
+    note=BASE + "distance-to-mate oracle = the engine's own generator, certified exhaustively per class by the C12 check; for four men an announcement beyond the naive 50-move window is accepted iff its PV replays under the specification with a zeroing move in time (weaker than exactness); synthetic network.",
+    technique="Lean 4 proof (50-move margin / on-demand probe arithmetic on translator-regenerated kernels, certified tables from C12) + audit of the real engine (`go infinite` + stop) on <=4-man roots x clocks x hash x threads against the exact distance to mate",
+    design="6/C13"),
  "C14": dict(
     text="Lean theorems (Props/C14.lean) on the table model: the repaired clear() yields exactly a fresh table (slots, used size, generation) up to the contempt hash; the first search after Clear Hash runs with generation 1 like a fresh engine; witness that the pinned commit's clear() (generation kept) makes an insert/insert/probe history observable differently once the generation wraps to 0. Partial: determinism of the whole search and the other persistent state (history, killers, caches) are tied by the two-process comparison of complete UCI output, not proved.",
     note=BASE + "determinism of the real search at Threads=1 is observed (fresh engine run twice); synthetic network; caches kept by Clear Hash assumed transparent (C07).",
